@@ -129,7 +129,7 @@ func prepare(o prepOpts) *build {
 	if err := os.MkdirAll(filepath.Join(b.dir, "verifsim"), 0o755); err != nil {
 		die(2, "%v", err)
 	}
-	if out, err := run("", nil, "sh", "-c", fmt.Sprintf("cp %s/simrt/verifsim/*.go %s/verifsim/", verifDir, b.dir)); err != nil {
+	if out, err := run("", nil, "sh", "-c", fmt.Sprintf("cp -r %s/simrt/verifsim/. %s/verifsim/", verifDir, b.dir)); err != nil {
 		die(2, "copy runtime: %v\n%s", err, out)
 	}
 	// go.mod: raise the language version for range-over-func
